@@ -32,7 +32,7 @@ def setup():
     core.build_bin(True)
     mods = sorted(f for f in os.listdir(core.SPEC) if f.endswith(".tla"))
     for m in mods:
-        p = core.sh(["java", "-DTLA-Library=%s:%s" % (core.GEN, core.SPEC), "-cp", core.CP, "tla2sany.SANY", m],
+        p = core.sh(["java", "-DTLA-Library=%s:%s:/opt/veriftools/tlapm/lib/tlapm/stdlib" % (core.GEN, core.SPEC), "-cp", core.CP, "tla2sany.SANY", m],
                     cwd=core.SPEC, check=False)
         if p.returncode != 0 or "Semantic errors" in p.stdout or "Parse Error" in p.stdout or "Could not parse" in p.stdout:
             raise core.ToolError("SANY rejects %s:\n%s" % (m, p.stdout[-2000:]))
